@@ -11,7 +11,7 @@ import os
 
 from vlib.common import Check, rng, run_case, pmap, workdir, cleanup, short
 
-STATES = ['coop', 'swallow', 'idle-persistent', 'finished', 'busy-persistent', 'in-context', 'empty-context', 'swallow-in-context', 'idle-in-context']
+STATES = ['coop', 'swallow', 'idle-persistent', 'finished', 'finished-unobserved', 'busy-persistent', 'in-context', 'empty-context', 'swallow-in-context', 'idle-in-context']
 
 
 def case(spec, log):
@@ -55,6 +55,10 @@ def case(spec, log):
                 w = RemoteWorker(vtargets.ret_value, args=[5], host=host)
                 w.wait(10)
                 log.ev('finished_before', i=i, has_error=w.has_error, result=repr(w.result))
+            elif st == 'finished-unobserved':
+                # finished by itself; nobody asks the server about it (the server has not "seen" it die)
+                w = RemoteWorker(vtargets.ret_value, args=[5], host=host)
+                time.sleep(0.6)
             elif st == 'in-context':
                 ctx = RemoteContext(100 + i, host=host, target=vtargets.py_loop, args=[sub, None])
                 contexts.append(ctx)
@@ -170,7 +174,7 @@ def judge(chk, spec, res):
     # been asked gracefully (and was therefore able to report)
     stop_dur = [e['dur'] for e in evs if e.get('ev') == 'return' and e.get('name') == 'server.terminate']
     graceful_for_all = bool(stop_dur) and stop_dur[0] < 0.8 * (spec.get('term_timeout') or 1)
-    capable = ('coop', 'idle-persistent', 'busy-persistent', 'in-context', 'idle-in-context', 'finished', 'empty-context')
+    capable = ('coop', 'idle-persistent', 'busy-persistent', 'in-context', 'idle-in-context', 'finished', 'finished-unobserved', 'empty-context')
     if spec['how'] == 'terminate' and (spec.get('term_timeout') or 0) >= 10 and stop_dur and not graceful_for_all and all(c in capable for c in spec['children']):
         # nothing keeps this server from leaving by itself, yet terminate() had to wait for its force path
         probs.append('server-did-not-act-on-the-terminate-request')
@@ -185,6 +189,10 @@ def judge(chk, spec, res):
             continue
         if 'HANG' in (e.get('has_error'), e.get('result'), e.get('error'), e.get('stream')):
             probs.append('parent-accessor-blocks:%s' % st)
+            continue
+        if st == 'finished-unobserved':
+            if e['has_error'] is not False or e['result'] != '5':
+                probs.append('outcome-of-finished-worker-lost')
             continue
         if st == 'finished':
             f = fin.get(e['i'])
@@ -211,7 +219,7 @@ def judge(chk, spec, res):
 def run(tier):
     thorough = tier == 'thorough'
     chk = Check('C12', 'exploration', tier,
-                '0-4 server children in mixed states {cooperative loop, swallowing loop, idle persistent, busy persistent, finished, inside a context (cooperative, swallowing, idle), empty context} x {terminate() with the default / a 3 s / a 10 s timeout, SIGTERM} x shutdown moment '
+                '0-4 server children in mixed states {cooperative loop, swallowing loop, idle persistent, busy persistent, finished (observed by the parent or not), inside a context (cooperative, swallowing, idle), empty context} x {terminate() with the default / a 3 s / a 10 s timeout, SIGTERM} x shutdown moment '
                 '{steady state, during worker start-up: server paused by the injector at lines of the hand-shake}; distinct non-trivial = distinct (children multiset order, how, moment)')
     r = rng('c12')
     jobs = []
@@ -252,13 +260,19 @@ def run(tier):
         for how in (('terminate', 'sigterm') if thorough else (r.choice(['terminate', 'sigterm']),)):
             race.append(dict(children=[r.choice(['coop', 'idle-persistent'])], how=how, startup_race=True, k=e['i'], at=lpi.at_of(trace, e['i']), line=e['line'],
                              term_timeout=(10 if how == 'terminate' else None)))
+    # the same race with a worker that has finished by itself earlier (its process has been collected by the time the
+    # next one is started) next to a live one
+    for e in (own_lines if thorough else own_lines[1::4]):
+        for how in (('terminate', 'sigterm') if thorough else ('sigterm',)):
+            race.append(dict(children=[r.choice(['finished', 'finished-unobserved', 'finished-unobserved']), 'coop'], how=how, startup_race=True, k=e['i'], at=lpi.at_of(trace, e['i']), line=e['line'],
+                             term_timeout=(10 if how == 'terminate' else None)))
 
     def one(ij):
         i, sp = ij
         inject = None
         if sp.get('startup_race'):
             inject = lpi.cfg('RemoteWorker', 'act', events='line', k=sp['k'], action='pause', arm_func='__setstate__', end=['__setstate__'], pause_s=6, at=sp.get('at'))
-            inject['skip_arms'] = sum(1 for c in sp['children'] if c in ('coop', 'swallow', 'finished'))
+            inject['skip_arms'] = sum(1 for c in sp['children'] if c in ('coop', 'swallow', 'finished', 'finished-unobserved'))
             inject['arm']['state_key'] = '_from_remote_parent'
         res = run_case('checks.c12:case', sp, os.path.join(wd, 'c%d' % i), timeout=300, inject=inject)
         cleanup(res['dir'])
